@@ -311,7 +311,7 @@ class Child:
                 pass
 
 
-def spawn(name, cache_dir, installed_dir, task, chunks=CHUNKS):
+def spawn(name, cache_dir, installed_dir, task, chunks=CHUNKS, lock_timeout=0.05):
     c2p_r, c2p_w = os.pipe()
     p2c_r, p2c_w = os.pipe()
     sys.stdout.flush()
@@ -324,7 +324,7 @@ def spawn(name, cache_dir, installed_dir, task, chunks=CHUNKS):
             devnull = os.open(os.devnull, os.O_WRONLY)
             os.dup2(devnull, 1)
             os.dup2(devnull, 2)
-            child_main(_Chan(c2p_w, p2c_r), cache_dir, installed_dir, task, chunks)
+            child_main(_Chan(c2p_w, p2c_r), cache_dir, installed_dir, task, chunks, lock_timeout=lock_timeout)
         finally:
             os._exit(98)
     os.close(c2p_w)
